@@ -493,7 +493,7 @@ class ObjGen:
         if k < 0.78: return self.g.ident(29) [:29] + r.choice(["", "a", "ab"])
         if k < 0.86: return "^" + self.g.ident(6)
         if k < 0.92: return self.g.ident(5) + ":" + self.g.ident(5)
-        return r.choice(["", "a b", "1x", "x_", "caf\xe9", "NULL", "END", "a-b", "x" * 31])
+        return r.choice(["", "a b", "1x", "x_", "caf\xe9", "NULL", "END", "a-b", "x" * 31, "a\tb"])
 
     def string(self):
         r = self.r
@@ -538,7 +538,8 @@ class ObjGen:
         if k < 0.72: return self.string()
         if k < 0.90: return self.temporal()
         v = self.number()
-        return Quantity(v, r.choice(["m", "km/s", "deg", "m s", "W*m**-2", "m**2", "a>b", "", "K/"]))
+        return Quantity(v, r.choice(["m", "km/s", "deg", "m s", "W*m**-2", "m**2", "a>b", "", "K/", "km /\ts", "m\ts", "m\x0bs",
+                                     "a\fb"]))
 
     def value(self, depth=0):
         r = self.r
